@@ -2,7 +2,7 @@
 
 Scenario / schedule format: see harness/procstack.py.
 """
-END_TOK = {'next': 'N', 'wait': 'W', 'finish': 'F', 'raise': 'R'}
+END_TOK = {'next': 'N', 'wait': 'W', 'finish': 'F', 'raise': 'R', 'base': 'B'}
 
 
 def code_toks(code):
@@ -76,6 +76,8 @@ def expected_final(steps):
             return ('excepted', 'Boom')
         if st['end'] == 'finish':
             return ('finished', None)
+        if st['end'] == 'base':
+            return ('running', None)            # a BaseException is not handled by step(): no transition, the stepping ends
     return ('excepted', 'AttributeError')   # Continue/Wait to a step that does not exist (never generated)
 
 
@@ -91,6 +93,11 @@ def monitor(scn, r, class_of=None):
       scope), however many scopes were entered and left meanwhile                                  -> stack-not-restored:<kind>
     * harness code between two callbacks sees None, or the process whose step is inside `execute()` -> loop-context-wrong
     * no scope assertion / stray exception: every process ends as its program says                 -> scope-assertion-failed, unexpected-final
+      (a process whose step was left through a cancellation stays in the state it was in; one whose step raised a BaseException
+      stays RUNNING: neither is a transition)
+    The kinds `absorbed` (the `except` clause of a parent that awaited a child inline and got a BaseException / cancellation out
+    of it) and `iret` (after that statement) are in-scope code points of the parent: "after the scope is left - also through a
+    BaseException or a cancellation - the previous value is restored" is `current-wrong:absorbed` / `stack-not-restored:absorbed`.
     """
     out = []
     creator = r['creator']
@@ -120,8 +127,10 @@ def monitor(scn, r, class_of=None):
     if r.get('error'):
         out.append((f"run-error:{r['error'].split(':')[0]}", 'the run completes', dict(error=r['error'])))
     elif class_of is not None:
+        interrupted = {int(k): v for k, v in (r.get('interrupted') or {}).items()}
         for pid, fin in enumerate(r['finals']):
-            exp = ('killed', None) if pid in r.get('killed', []) else expected_final(scn['classes'][class_of[pid]])
+            exp = ((interrupted[pid], None) if pid in interrupted else ('killed', None) if pid in r.get('killed', [])
+                   else expected_final(scn['classes'][class_of[pid]]))
             if fin is None or tuple(fin) != exp:
                 sig = 'scope-assertion-failed' if fin and fin[1] == 'AssertionError' else f'unexpected-final:{fin[0] if fin else None}:{fin[1] if fin else None}'
                 out.append((sig, 'the assertion of _process_scope never fails; processes end as their program says',
@@ -242,4 +251,80 @@ def random_scenario(rng, big=False):
 
 def scenario_size(scn):
     return (sum(len(st['code']) + 1 for c in scn['classes'] for st in c) + sum(len(c) + 1 for c in scn['cbs']) + len(scn['top'])
-            + len(scn.get('ext', [])) + len(scn.get('kills', [])))
+            + len(scn.get('ext', [])) + len(scn.get('kills', [])) + len(scn.get('cancels', [])))
+
+
+# ------------------------------------------------------------------------------------------------- inline awaits, BaseExceptions, cancellation
+
+def inline_family(depth, awaits, ending, cancel, peer=True):
+    """the families of harness/c18_inline.py as scenarios: class k (k < depth-1) awaits class k+1 inline, samples, awaits once
+    more; the innermost class has `awaits` await points and ends ok / with an Exception / with a BaseException; a peer process
+    with awaits of its own runs in another task; `cancel`: the harness may cancel the stepping task of the outermost process"""
+    classes = []
+    for k in range(depth - 1):
+        classes.append([S([f'i{k + 1}', 'o', 'a', 'o'])])
+    classes.append([S(['a'] * awaits + ['o'], {'ok': 'finish', 'exc': 'raise', 'base': 'base'}[ending])])
+    top = [0]
+    if peer:
+        classes.append([S(['o', 'a', 'o', 'a'])])
+        top.append(depth)
+    return dict(classes=classes, cbs=[], top=top, cancels=[0] if cancel else [])
+
+
+def corpus_inline():
+    """small scenarios with children awaited inline, BaseException endings and cancellations, explored over ALL interleavings
+    (the cancellation at every possible moment)"""
+    out = []
+    for depth in (2, 3):
+        for awaits in (1, 2):
+            for ending in ('ok', 'exc', 'base'):
+                out.append((f'inline-d{depth}-a{awaits}-{ending}', inline_family(depth, awaits, ending, False)))
+            out.append((f'inline-d{depth}-a{awaits}-cancel', inline_family(depth, awaits, 'ok', True, peer=(depth == 2))))
+    leaf = [S(['a', 'o'])]
+    out += [
+        ('inline-base-no-handler', dict(classes=[[S(['o', 'a'], 'base')], leaf], cbs=[], top=[0, 1])),
+        ('inline-cancel-top-level', dict(classes=[[S(['a', 'o', 'a'])], leaf], cbs=[], top=[0, 1], cancels=[0])),
+        ('inline-cancel-twice', dict(classes=[[S(['i1', 'a', 'i1'])], [S(['a', 'a'])]], cbs=[], top=[0], cancels=[0, 0])),
+        ('inline-two-children-base', dict(classes=[[S(['i1', 'i2', 'o'])], [S(['a'], 'base')], [S(['o', 'a'], 'raise')]], cbs=[], top=[0, 2])),
+        ('inline-child-waits', dict(classes=[[S(['i1', 'o'])], [S(['o'], 'wait'), S(['a'])]], cbs=[], top=[0, 0])),
+        ('inline-child-waits-kill', dict(classes=[[S(['i1', 'a'])], [S(['u'], 'wait'), S(['o'])], leaf], cbs=[], top=[0, 2], kills=[1])),
+        ('inline-child-waits-cancel', dict(classes=[[S(['i1', 'o', 'a'])], [S([], 'wait'), S(['o'])]], cbs=[], top=[0], kills=[1], cancels=[0])),
+        ('inline-child-continue-base', dict(classes=[[S(['i1', 'a', 'o'], 'next'), S(['o'])], [S(['a'], 'next'), S(['o'], 'base')]], cbs=[], top=[0, 0])),
+        ('inline-in-callback', dict(classes=[[S(['c0', 'a'])], [S(['a', 'o'], 'base')]], cbs=[['i1', 'a', 'o']], top=[0], cancels=[1])),
+        ('inline-external-callback-cancel', dict(classes=[[S(['a'])], [S(['a', 'u'])]], cbs=[['o', 'i1', 'o']], top=[0], ext=[[0, 0]], cancels=[1])),
+        ('inline-child-launches', dict(classes=[[S(['i1', 'o'])], [S(['l2', 'a', 'c0'], 'base')], leaf], cbs=[['o']], top=[0], cancels=[1])),
+        ('inline-child-executes', dict(classes=[[S(['i1', 'o'])], [S(['x2', 'a'])], [S(['a'], 'base')]], cbs=[], top=[0], cancels=[0, 1])),
+        ('inline-in-nested', dict(classes=[[S(['x1', 'o'])], [S(['i2', 'a'])], [S(['a', 'o'], 'base')]], cbs=[], top=[0, 2], cancels=[2])),
+        ('inline-launched-parent', dict(classes=[[S(['l1', 'a'])], [S(['i2', 'o'], 'base')], [S(['a'], 'raise')]], cbs=[], top=[0], cancels=[1])),
+        ('inline-cancel-before-start', dict(classes=[[S(['i1'])], [S(['o'])]], cbs=[], top=[0, 0], cancels=[1, 0])),
+        ('inline-sync-child', dict(classes=[[S(['i1', 'i1', 'o'])], [S(['o', 'u'], 'base')]], cbs=[], top=[0])),
+    ]
+    return out
+
+
+def random_scenario_inline(rng, big=False):
+    """a random scenario in which some children are awaited inline, some classes end with a BaseException and the harness may
+    cancel some tasks"""
+    scn = random_scenario(rng, big)
+    n = len(scn['classes'])
+    codes = [st['code'] for c in scn['classes'] for st in c] + scn['cbs']
+    for code in codes:
+        for j, a in enumerate(code):
+            if a[0] in 'lx' and rng.random() < 0.6:
+                code[j] = 'i' + a[1:]
+    if not any(a[0] == 'i' for code in codes for a in code):
+        if n == 1:
+            scn['classes'].append([S(rng.choice([['a'], ['a', 'o'], ['o', 'a', 'a'], []]))])
+            n = 2
+        k = rng.randrange(n - 1)
+        code = rng.choice(scn['classes'][k])['code']
+        code.insert(rng.randint(0, len(code)), f'i{rng.randint(k + 1, n - 1)}')
+    for c in scn['classes']:
+        if rng.random() < 0.3:
+            c[-1]['end'] = 'base'
+    # tasks to cancel: mostly the stepping tasks of top-level processes that await a child inline (task id = position in `top`),
+    # else any of the first tasks (other top-level processes, launched children, callbacks, nested executions)
+    awaiting = [t for t, k in enumerate(scn['top']) if any(a[0] == 'i' for st in scn['classes'][k] for a in st['code'])]
+    scn['cancels'] = [rng.choice(awaiting) if awaiting and rng.random() < 0.7 else rng.randrange(len(scn['top']) + 3)
+                      for _ in range(rng.choice([0, 1, 1, 2, 3]))]
+    return scn
